@@ -411,18 +411,35 @@ async fn scenario(mon: &Monitor, rng: &mut Rng) {
             })
             .collect();
         mon.count("frames.response", resps.len() as u64);
-        let answered: HashSet<usize> = resps
-            .iter()
-            .filter_map(|f| {
-                // the response must come from the peer the request with that id was sent to
-                let id = f.dht.as_ref().map(|d| d.message_id.as_str())?;
-                let rq = reqs.iter().find(|r| r.dht.as_ref().is_some_and(|d| d.message_id == id))?;
-                (rq.dst == f.src).then(|| spell.get(&f.src).copied()).flatten()
-            })
-            .collect();
+        // "answered" = a response from the queried peer entered the receive loop before that
+        // request's own timeout; replies landing within 5 ms of the deadline are undecidable
+        let mut answered: HashSet<usize> = HashSet::new();
+        let mut answered_maybe: HashSet<usize> = HashSet::new();
+        // replies the lookup can have seen: delivered before their request timed out
+        let mut seen_replies: Vec<&Frame> = Vec::new();
+        for f in &resps {
+            let Some(id) = f.dht.as_ref().map(|d| d.message_id.as_str()) else { continue };
+            let Some(rq) = reqs.iter().find(|r| r.dht.as_ref().is_some_and(|d| d.message_id == id)) else { continue };
+            if rq.dst != f.src {
+                continue;
+            }
+            let Some(&i) = spell.get(&f.src) else { continue };
+            let (Some(at), sent) = (f.deliver_at, rq.t) else { continue };
+            let edge = sent + REQ_TO;
+            if at + Duration::from_millis(5) < edge {
+                answered.insert(i);
+                seen_replies.push(f);
+            } else if at < edge + Duration::from_millis(5) {
+                answered_maybe.insert(i);
+            }
+        }
         // everything named in delivered replies
         let mut phantoms = 0usize;
-        for f in &resps {
+        // peers some reply named with an address that is not theirs: the lookup may have queued
+        // that address first, so "never got a request" is not decidable for them
+        let mut poisoned: HashSet<usize> = HashSet::new();
+        let connected_at_call: HashSet<usize> = reach.keys().copied().collect();
+        for f in &seen_replies {
             if let Some(m) = &f.msg {
                 if let Some(DhtNetworkResult::NodesFound { nodes, .. }) = &m.result {
                     for nd in nodes.iter().take(400) {
@@ -432,6 +449,8 @@ async fn scenario(mon: &Monitor, rng: &mut Rng) {
                                 let a = nd.address.split(" (").next().unwrap_or(&nd.address);
                                 if a.parse::<SocketAddr>().ok() == Some(eps[i].addr) {
                                     reach.insert(i, true);
+                                } else if !connected_at_call.contains(&i) {
+                                    poisoned.insert(i);
                                 }
                             }
                             Some(_) => {}
@@ -495,7 +514,7 @@ async fn scenario(mon: &Monitor, rng: &mut Rng) {
                     break;
                 }
                 Some(i) if *i == x => {}
-                Some(i) if answered.contains(i) => {}
+                Some(i) if answered.contains(i) || answered_maybe.contains(i) => {}
                 Some(i) => {
                     let kind = if eps[*i].lie.is_some() { "puppet" } else if faulty.contains(i) { "faulty-peer" } else { "healthy-peer" };
                     mon.violation(&format!("result/names-node-that-never-answered/{kind}"), ctx(json!({"node": hex8(&eps[*i].tid), "lie": format!("{:?}", eps[*i].lie)})));
@@ -519,6 +538,7 @@ async fn scenario(mon: &Monitor, rng: &mut Rng) {
                 .filter_map(|d| eps.iter().position(|e| e.addr == d.2))
                 .collect();
             let rset: HashSet<usize> = mapped.iter().flatten().copied().collect();
+            let faulty_late: HashSet<usize> = HashSet::new();
             for &p in &learned {
                 let dp = xor(&eps[p].pos, &key);
                 let closer = match far {
@@ -529,12 +549,34 @@ async fn scenario(mon: &Monitor, rng: &mut Rng) {
                     continue;
                 }
                 mon.eval();
+                if !queried.contains(&p) && !dial_failed.contains(&p) && poisoned.contains(&p) {
+                    mon.count("skipped.closure-peer-named-with-foreign-address", 1);
+                    continue;
+                }
                 if !queried.contains(&p) && !dial_failed.contains(&p) && reach.get(&p).copied().unwrap_or(false) {
                     let sig = if result.len() < k { "closure/short-result-with-unqueried-learned-peer" } else { "closure/closer-learned-peer-never-queried" };
-                    mon.violation(sig, ctx(json!({"peer": hex8(&eps[p].tid), "result_len": result.len(), "learned": learned.len(), "requests": reqs.len()})));
+                    let mut rank: Vec<usize> = learned.iter().copied().chain(std::iter::once(x)).collect();
+                    rank.sort_by_key(|i| xor(&eps[*i].pos, &key));
+                    let replies: Vec<serde_json::Value> = seen_replies.iter().map(|f| {
+                        let names: Vec<String> = match f.msg.as_ref().and_then(|m| m.result.as_ref()) {
+                            Some(DhtNetworkResult::NodesFound { nodes, .. }) => nodes.iter().take(12).map(|n| format!("{}@{}", &n.peer_id[..8.min(n.peer_id.len())], n.address)).collect(),
+                            Some(o) => vec![result_name(o).to_string()],
+                            None => vec![],
+                        };
+                        json!({"from": &f.src[..8], "at_us": f.deliver_at.map(|d| d.as_micros() as u64), "names": names})
+                    }).collect();
+                    mon.violation(sig, ctx(json!({"peer": hex8(&eps[p].tid), "result_len": result.len(), "learned": learned.len(), "requests": reqs.len(),
+                        "requests_to": reqs.iter().map(|r| format!("{}@{}us", &r.dst[..8], r.t.as_micros())).collect::<Vec<_>>(),
+                        "replies": replies,
+                        "rank_by_distance": rank.iter().map(|i| format!("{}{}", hex8(&eps[*i].tid), if *i == x { "(self)" } else { "" })).collect::<Vec<_>>(),
+                        "result": result.iter().map(|r| r.peer_id[..8.min(r.peer_id.len())].to_string()).collect::<Vec<_>>(),
+                        "dials": dials.iter().map(|d| format!("{}->{} {}", &d.1[..8], d.2, d.3)).collect::<Vec<_>>(),
+                        "rt_at_call": rt.iter().map(|(id, a)| format!("{}@{}", by_pos.get(id).map(|i| hex8(&eps[*i].tid)).unwrap_or_default(), a)).collect::<Vec<_>>(),
+                        "dht_peers_at_call": peers.iter().map(|(pid, _, c, a)| format!("{} conn={} addrs={:?}", &pid[..8.min(pid.len())], c, a)).collect::<Vec<_>>(),
+                        "transport_peers_now": xn.transport.connected_peers().await.iter().map(|p| p[..8.min(p.len())].to_string()).collect::<Vec<_>>()})));
                     break;
                 }
-                if answered.contains(&p) && !rset.contains(&p) && eps[p].lie.is_none() {
+                if answered.contains(&p) && !rset.contains(&p) && eps[p].lie.is_none() && !faulty_late.contains(&p) {
                     mon.violation("closure/answering-closer-peer-not-returned", ctx(json!({"peer": hex8(&eps[p].tid), "result_len": result.len()})));
                     break;
                 }
@@ -572,7 +614,7 @@ fn main() {
     mon.set_rule("case = one find_closest_nodes lookup on a MemNet of real nodes (+ scripted liars) judged from its call/return and RPC trace; non-trivial when >=2 remote peers were known/learned and >=1 request frame was observed; distinct by (topology, N, puppets, K, fault class, #requests, result size) plus distinct frame delivery orders");
     mon.assume("in-memory link replaces ant-quic below TransportHandle; node ids aligned (local_peer_id = hex transport id); virtual (paused) clock");
     mon.assume("closure is judged only when learned+phantom ids <= 25 so the 20x3 request budget cannot be the reason a peer was skipped");
-    let per_shard = mon.by_tier(40u64, 2500);
+    let per_shard = mon.by_tier(300u64, 6000);
     vkit::run_shards(mon.shards(), mon.seed, |_i, mut rng| {
         for _ in 0..per_shard {
             if mon.time_up() {
